@@ -7,8 +7,10 @@ pub mod checks;
 pub mod cli;
 pub mod dterm;
 pub mod gens;
+pub mod pipe;
 pub mod refs;
 pub mod runner;
 pub mod sast;
 pub mod tok;
+pub mod typed;
 pub mod util;
